@@ -468,6 +468,11 @@ package render
 //@ at call Compile #1 before assert diskFirst: rerr == nil ==> arg1 == bstr(disk)
 //@ at call Compile #1 before assert cacheWhenMissing: rerr != nil ==> os.IsNotExist(rerr) && has(c.ctx.config.Cache, filename) && arg1 == bstr(c.ctx.config.Cache[filename])
 //@ at call Compile #1: cerr = result1
+//@ ghost compiles Int = 0
+//@ at call Compile #1: compiles = compiles + 1
+//@ ensures diskIsCompiled: rerr == nil ==> compiles == 1
+//@ ensures cachedIsCompiled: rerr != nil && os.IsNotExist(rerr) && old(has(c.ctx.config.Cache, filename)) ==> compiles == 1
+//@ ensures rendered: compiles == 1 && cerr == nil ==> renders == 1
 //@ at call Render #1 before assert fresh: fresh(arg2) && arg2 != c.ctx.bindings
 //@ at call Render #1 before assert currentBindings: forall(k, "Str", has(c.ctx.bindings, k) && !has(b, k) ==> has(arg2, k) && arg2[k] == c.ctx.bindings[k])
 //@ at call Render #1 before assert explicit: forall(k, "Str", has(b, k) ==> has(arg2, k) && arg2[k] == b[k])
